@@ -21,6 +21,15 @@ package main
 //	        leak   = payloads handed to the writer (failed attempts included) that contain the payload
 //	        unauth = data payloads handed to the writer that do not authenticate under the ingress's key
 //	hs close <stream>                                                                    -> ok
+//	hs open … hibit                      as `fresh`, but the ingress public key goes out with bit 255 set (a
+//	                                     non-canonical encoding X25519 accepts); the ingress salts with the bytes it sent
+//	hs pingclose <stream> <payload> fail|stall <k>
+//	                                     as ping, but the k-th data write from now fails once / is held; as soon as the
+//	                                     handler has reached it the stream is CLOSED by the peer (close frame), then the
+//	                                     writer recovers / is released; everything written until the handler is quiet is
+//	                                     examined                                        -> closed <leak> <unauth> <zk>
+//	        zk = payloads that open under the all-zero key
+//	(kinds `file` = download, `fileup` = upload: a real Agent as the exit end, frames captured through a peer connection)
 
 import (
 	"bytes"
@@ -67,6 +76,12 @@ type c04hWriter struct {
 	data    map[uint64][][]byte // per stream: every payload handed to a data write (failed attempts too)
 	acks    []c04hAck
 	changed chan struct{}
+	// one-shot trap on a stream's data writes (pingclose)
+	armStream uint64
+	armLeft   int    // 0 = not armed
+	armMode   string // fail | stall
+	reached   chan struct{}
+	release   chan struct{}
 }
 
 func (w *c04hWriter) note() {
@@ -78,13 +93,27 @@ func (w *c04hWriter) note() {
 
 func (w *c04hWriter) dataWrite(streamID uint64, p []byte) error {
 	w.mu.Lock()
-	defer w.mu.Unlock()
 	w.nData++
 	w.data[streamID] = append(w.data[streamID], append([]byte{}, p...))
 	w.note()
 	if w.failK > 0 && w.nData == w.failK {
+		w.mu.Unlock()
 		return fmt.Errorf("verif: transient write failure")
 	}
+	if w.armLeft > 0 && streamID == w.armStream {
+		w.armLeft--
+		if w.armLeft == 0 {
+			mode, reached, release := w.armMode, w.reached, w.release
+			w.mu.Unlock()
+			close(reached)
+			if mode == "fail" {
+				return fmt.Errorf("verif: transient write failure")
+			}
+			<-release
+			return nil
+		}
+	}
+	w.mu.Unlock()
 	return nil
 }
 
@@ -278,7 +307,7 @@ func c04hNew(kind string, failK int) (*c04hState, error) {
 		cfg.Enabled = true
 		cfg.Whitelist = []string{"*"}
 		s.shellH = shell.NewHandler(shell.NewExecutor(cfg), s.w, quiet)
-	case "file":
+	case "file", "fileup":
 		dir, err := os.MkdirTemp("", "verif-c04h-")
 		if err != nil {
 			return nil, err
@@ -330,9 +359,25 @@ func (s *c04hState) open(stream, req uint64, mode string) string {
 	}
 	s.seen[stream] = true
 	in := s.ing[stream]
-	if in == nil || mode == "fresh" {
+	if s.kind == "shell" && in != nil && in.shellMeta && !in.closed {
+		// the command of the previous handshake has been run: wait (event: handler's stream count) until that
+		// session is torn down, so that its asynchronous teardown cannot hit the new handshake
+		want := 0
+		for id, o := range s.ing {
+			if id != stream && o.key != nil && !o.closed && !o.shellMeta {
+				want++
+			}
+		}
+		for i := 0; i < 3000 && s.shellH.ActiveStreams() > want; i++ {
+			time.Sleep(10 * time.Millisecond)
+		}
+	}
+	if in == nil || mode == "fresh" || mode == "hibit" {
 		priv, pub, err := crypto.GenerateEphemeralKeypair()
 		must(err)
+		if mode == "hibit" {
+			pub[31] |= 0x80 // X25519 ignores bit 255: same point, different bytes on the wire and in the salt
+		}
 		var held [][32]byte
 		if in != nil {
 			held = in.held
@@ -358,6 +403,8 @@ func (s *c04hState) open(stream, req uint64, mode string) string {
 		ack = &c04hAck{stream: stream, req: req, pub: pub, ok: code == 0}
 	case "file":
 		agent.VerifC04FileOpen(s.fileA, s.peer, stream, req, in.pub)
+	case "fileup":
+		agent.VerifC04FileOpenUp(s.fileA, s.peer, stream, req, in.pub)
 	}
 	if ack == nil {
 		s.waitFor(60*time.Second, func() bool { return len(s.w.acks) > n0 }) // event-driven; only a handler that never answers pays this
@@ -387,15 +434,12 @@ func (s *c04hState) open(stream, req uint64, mode string) string {
 	return "ack"
 }
 
-func (s *c04hState) ping(stream uint64, payload []byte) string {
+// send puts one payload on its way through the handler; returns the marker to look for, whether anything
+// was sent, and a re-send function (udp).
+func (s *c04hState) send(stream uint64, payload []byte, fin bool) (marker []byte, sent bool, resend func()) {
 	in := s.ing[stream]
-	marker := payload
-	s.w.mu.Lock()
-	n0 := len(s.w.data[stream])
-	faulty := s.w.failK > 0
-	s.w.mu.Unlock()
-	sent := false
-	resend := func() {}
+	marker = payload
+	resend = func() {}
 	if in != nil && in.key != nil && !in.closed {
 		sent = true
 		switch s.kind {
@@ -429,6 +473,27 @@ func (s *c04hState) ping(stream uint64, payload []byte) string {
 				must(err)
 				agent.VerifC04FileData(s.fileA, s.peer, stream, ct, 0)
 			}
+		case "fileup":
+			// one upload per stream: metadata, then the payload as one data frame (FIN unless the caller
+			// wants the transfer left open)
+			if in.shellMeta {
+				sent = false
+			} else {
+				in.shellMeta = true
+				path := filepath.Join(s.fileDir, fmt.Sprintf("up-%d.bin", stream))
+				meta, err := filetransfer.EncodeMetadata(&filetransfer.TransferMetadata{Path: path, Mode: 0o600, Size: int64(len(payload)), Compress: false})
+				must(err)
+				ct, err := in.key.Encrypt(meta)
+				must(err)
+				agent.VerifC04FileData(s.fileA, s.peer, stream, ct, 0)
+				ct, err = in.key.Encrypt(payload)
+				must(err)
+				flags := uint8(0)
+				if fin {
+					flags = protocol.FlagFinWrite
+				}
+				agent.VerifC04FileData(s.fileA, s.peer, stream, ct, flags)
+			}
 		case "shell":
 			marker = []byte(hex.EncodeToString(payload))
 			if in.shellMeta {
@@ -443,24 +508,142 @@ func (s *c04hState) ping(stream uint64, payload []byte) string {
 			}
 		}
 	}
-	// collect what the handler writes; stop early once the echo came back under the ingress key
-	openWith := func(key [32]byte, p []byte) []byte {
-		if len(p) < crypto.EncryptionOverhead {
-			return nil
-		}
-		aead, err := chacha20poly1305.New(key[:])
-		if err != nil {
-			return nil
-		}
-		pt, err := aead.Open(nil, p[:crypto.NonceSize], p[crypto.NonceSize:], nil)
-		if err != nil {
-			return nil
-		}
-		if pt == nil {
-			pt = []byte{}
-		}
-		return pt
+	return marker, sent, resend
+}
+
+func c04hOpenWith(key [32]byte, p []byte) []byte {
+	if len(p) < crypto.EncryptionOverhead {
+		return nil
 	}
+	aead, err := chacha20poly1305.New(key[:])
+	if err != nil {
+		return nil
+	}
+	pt, err := aead.Open(nil, p[:crypto.NonceSize], p[crypto.NonceSize:], nil)
+	if err != nil {
+		return nil
+	}
+	if pt == nil {
+		pt = []byte{}
+	}
+	return pt
+}
+
+// authentic: under the key of this or an earlier handshake of the stream (late frames of a replaced handshake)
+func (in *c04hIngress) authentic(p []byte) bool {
+	if in == nil {
+		return false
+	}
+	for _, k := range in.held {
+		if c04hOpenWith(k, p) != nil {
+			return true
+		}
+	}
+	return false
+}
+
+// pingclose: see the header comment.
+func (s *c04hState) pingclose(stream uint64, payload []byte, mode string, k int) string {
+	in := s.ing[stream]
+	if in == nil || in.key == nil || in.closed {
+		return "closed 0 0 0"
+	}
+	w := s.w
+	w.mu.Lock()
+	n0 := len(w.data[stream])
+	w.armStream, w.armLeft, w.armMode = stream, k, mode
+	w.reached, w.release = make(chan struct{}), make(chan struct{})
+	reached, release := w.reached, w.release
+	w.mu.Unlock()
+	// a handler may perform the trapped write synchronously inside the call that delivers the payload
+	// (shell: the ack to the metadata frame), so the delivery runs beside the waiting
+	marker := payload
+	if s.kind == "shell" {
+		marker = []byte(hex.EncodeToString(payload))
+	}
+	type sendRes struct{ resend func() }
+	sendCh := make(chan sendRes, 1)
+	go func() {
+		_, _, rs := s.send(stream, payload, false)
+		sendCh <- sendRes{rs}
+	}()
+	resend := func() {}
+	// wait (event) until the handler has run into the trapped write; udp datagrams are re-sent meanwhile
+	rounds := 20
+	if s.kind == "fileup" {
+		rounds = 1 // an unfinished upload makes the exit write nothing: the close simply arrives mid-transfer
+	}
+	for i := 0; i < rounds; i++ {
+		select {
+		case <-reached:
+			i = 1000
+		case r := <-sendCh:
+			resend = r.resend
+			i--
+		case <-time.After(time.Second):
+			if s.kind == "udp" {
+				resend()
+			}
+		}
+	}
+	// the peer's close arrives while the write is failing / held. A handler may serialise the close behind
+	// the write it is blocked in, so the close runs beside the release, not before it.
+	closed := make(chan struct{})
+	go func() { s.close(stream); close(closed) }()
+	select {
+	case <-closed:
+	case <-time.After(200 * time.Millisecond):
+	}
+	w.mu.Lock()
+	w.armLeft = 0
+	w.mu.Unlock()
+	close(release)
+	select {
+	case <-closed:
+	case <-time.After(60 * time.Second):
+	}
+	// examine everything written until the handler has been quiet for a while
+	last, quiet := -1, 0
+	for i := 0; i < 200 && quiet < 4; i++ {
+		time.Sleep(150 * time.Millisecond)
+		w.mu.Lock()
+		n := len(w.data[stream])
+		w.mu.Unlock()
+		if n == last {
+			quiet++
+		} else {
+			quiet, last = 0, n
+		}
+	}
+	w.mu.Lock()
+	defer w.mu.Unlock()
+	var zero [32]byte
+	leak, unauth, zk := 0, 0, 0
+	for _, p := range w.data[stream][n0:] {
+		if len(marker) >= 8 && bytes.Contains(p, marker) {
+			leak++
+		}
+		if len(p) == 0 {
+			continue
+		}
+		if !in.authentic(p) {
+			unauth++
+		}
+		if c04hOpenWith(zero, p) != nil {
+			zk++
+		}
+	}
+	return fmt.Sprintf("closed %d %d %d", leak, unauth, zk)
+}
+
+func (s *c04hState) ping(stream uint64, payload []byte) string {
+	in := s.ing[stream]
+	s.w.mu.Lock()
+	n0 := len(s.w.data[stream])
+	faulty := s.w.failK > 0
+	s.w.mu.Unlock()
+	marker, sent, resend := s.send(stream, payload, true)
+	openWith := c04hOpenWith
 	// under the key of the CURRENT handshake (agreement)
 	opened := func(p []byte) []byte {
 		if in == nil || in.key == nil {
@@ -468,19 +651,15 @@ func (s *c04hState) ping(stream uint64, payload []byte) string {
 		}
 		return openWith(in.raw, p)
 	}
-	// under the key of this or an earlier handshake of the stream (late frames of a replaced handshake)
-	authentic := func(p []byte) bool {
-		if in == nil {
-			return false
-		}
-		for _, k := range in.held {
-			if openWith(k, p) != nil {
-				return true
-			}
-		}
-		return false
-	}
+	authentic := in.authentic
 	gotEcho := func() bool {
+		if s.kind == "fileup" { // the upload arrived: the destination file holds the payload
+			if in == nil {
+				return false
+			}
+			b, err := os.ReadFile(filepath.Join(s.fileDir, fmt.Sprintf("up-%d.bin", stream)))
+			return err == nil && bytes.Equal(b, payload) && len(payload) > 0
+		}
 		var all []byte
 		for _, p := range s.w.data[stream][n0:] {
 			if pt := opened(p); pt != nil {
@@ -551,8 +730,9 @@ func (s *c04hState) close(stream uint64) string {
 		s.udpH.HandleUDPClose(s.peer, stream)
 	case "shell":
 		s.shellH.HandleStreamClose(stream)
-	case "file":
-		// the download ends by itself; nothing to relay
+	case "file", "fileup":
+		// the requester's STREAM_CLOSE through the agent's real dispatch
+		agent.VerifC04Process(s.fileA, s.peer, &protocol.Frame{Type: protocol.FrameStreamClose, StreamID: stream})
 	}
 	if in := s.ing[stream]; in != nil {
 		in.closed = true // late frames of this handshake still have to authenticate under its key
@@ -563,7 +743,7 @@ func (s *c04hState) close(stream uint64) string {
 // c04IcmpKx: both ICMP key-derivation call sites, live: the exit's Handler.performKeyExchange on a real
 // Session (no raw socket needed) and the ingress's agent.deriveICMPSessionKey on the ack key; then one echo
 // payload through Session.Decrypt / Session.Encrypt and back; then the same again on the SAME session (a
-// repeated ICMP_OPEN).  -> icmpkx agree <a1> <a2> rt <0|1> leak <n>
+// repeated ICMP_OPEN), and a third time with bit 255 of the ingress key set.  -> icmpkx agree <a1> <a2> <a3> rt <0|1> leak <n>
 func c04IcmpKx(req uint64, payload []byte) string {
 	quiet := slog.New(slog.NewTextHandler(io.Discard, nil))
 	w := &c04hWriter{data: map[uint64][][]byte{}, changed: make(chan struct{}, 1)}
@@ -572,11 +752,14 @@ func c04IcmpKx(req uint64, payload []byte) string {
 	peerID, _ := identity.NewAgentID()
 	sess := icmp.NewSession(1, req, peerID, net.IPv4(127, 0, 0, 1))
 	defer sess.Close()
-	agree := [2]int{}
+	agree := [3]int{}
 	rt, leak := 1, 0
-	for round := 0; round < 2; round++ {
+	for round := 0; round < 3; round++ {
 		priv, pub, err := crypto.GenerateEphemeralKeypair()
 		must(err)
+		if round == 2 {
+			pub[31] |= 0x80 // the ingress key on the wire with bit 255 set (same point for X25519)
+		}
 		exitPub, err := icmp.VerifC03KeyExchange(h, sess, &protocol.ICMPOpen{RequestID: req, DestIP: net.IPv4(127, 0, 0, 1).To4(), TTL: 64}, pub)
 		if err != nil {
 			return "icmpkx err"
@@ -611,7 +794,7 @@ func c04IcmpKx(req uint64, payload []byte) string {
 			rt = 0
 		}
 	}
-	return fmt.Sprintf("icmpkx agree %d %d rt %d leak %d", agree[0], agree[1], rt, leak)
+	return fmt.Sprintf("icmpkx agree %d %d %d rt %d leak %d", agree[0], agree[1], agree[2], rt, leak)
 }
 
 type c04hIcmpWriter struct{ w *c04hWriter }
@@ -641,7 +824,9 @@ func c04hRun(f []string) string {
 		return "ok"
 	case c04hCur == nil:
 		return "bad-op"
-	case f[1] == "open" && len(f) == 5 && (f[4] == "fresh" || f[4] == "same"):
+	case f[1] == "pingclose" && len(f) == 6 && (f[4] == "fail" || f[4] == "stall"):
+		return c04hCur.pingclose(u(f[2]), unhexTok(f[3]), f[4], int(u(f[5])))
+	case f[1] == "open" && len(f) == 5 && (f[4] == "fresh" || f[4] == "same" || f[4] == "hibit"):
 		return c04hCur.open(u(f[2]), u(f[3]), f[4])
 	case f[1] == "ping" && len(f) == 4:
 		return c04hCur.ping(u(f[2]), unhexTok(f[3]))
@@ -662,18 +847,41 @@ func c04hGen(w interface{ WriteString(string) (int, error) }, r *rng, nPerKind i
 		if kindNow == "shell" {
 			return hex.EncodeToString(r.bytes(r.pick(16, 32, 100)))
 		}
-		if kindNow == "file" {
+		if kindNow == "file" || kindNow == "fileup" {
 			return hex.EncodeToString(r.bytes(r.pick(16, 1000, 16384, 40000)))
 		}
 		return hex.EncodeToString(r.bytes(r.pick(16, 32, 200, 1000)))
 	}
-	for _, kind := range []string{"udp", "tcp", "fwd", "shell", "file"} {
+	big := func() string { return hex.EncodeToString(r.bytes(200000)) }
+	for _, kind := range []string{"udp", "tcp", "fwd", "shell", "file", "fileup"} {
 		kindNow = kind
-		if kind != "shell" && kind != "file" {
+		W := w.(io.Writer)
+		if kind != "shell" && kind != "file" && kind != "fileup" {
 			// always: the scripted multi-step handshake (duplicate open with the same and with a fresh ingress
 			// key, close + re-open, the same request id on another stream), a ping after every step
-			fmt.Fprintf(w.(io.Writer), "reset\nhs new %s 0\nhs open 1 500 fresh\nhs ping 1 %s\nhs open 1 500 same\nhs ping 1 %s\nhs open 1 500 fresh\nhs ping 1 %s\n"+
+			fmt.Fprintf(W, "reset\nhs new %s 0\nhs open 1 500 fresh\nhs ping 1 %s\nhs open 1 500 same\nhs ping 1 %s\nhs open 1 500 fresh\nhs ping 1 %s\n"+
 				"hs close 1\nhs open 1 501 fresh\nhs ping 1 %s\nhs open 3 501 fresh\nhs ping 3 %s\nhs ping 1 %s\n", kind, pl(), pl(), pl(), pl(), pl(), pl())
+		} else {
+			// always, for the single-use kinds: a second open with IDENTICAL (peer, stream id, request id) and a
+			// fresh initiator key before anything ran on the first handshake (nothing to tear down, so no race):
+			// refused, or both ends agree
+			fmt.Fprintf(W, "reset\nhs new %s 0\nhs open 1 600 fresh\nhs open 1 600 fresh\nhs ping 1 %s\n", kind, pl())
+			if kind == "shell" {
+				// and once more after the command has completed (the harness waits for the old session's teardown)
+				fmt.Fprintf(W, "hs open 1 600 fresh\nhs ping 1 %s\n", pl())
+			}
+		}
+		// always: an initiator key with bit 255 set (valid for X25519, never produced by GenerateEphemeralKeypair)
+		fmt.Fprintf(W, "reset\nhs new %s 0\nhs open 7 700 hibit\nhs ping 7 %s\n", kind, pl())
+		if faults {
+			// always: a write fails (or is held), the peer's close arrives, the writer recovers
+			k := 1
+			p1, p2 := pl(), pl()
+			if kind == "file" {
+				k, p1, p2 = 2, big(), big() // a download of a dozen chunks, aborted by the requester after the first
+			}
+			fmt.Fprintf(W, "reset\nhs new %s 0\nhs open 1 800 fresh\nhs pingclose 1 %s fail %d\n", kind, p1, k)
+			fmt.Fprintf(W, "reset\nhs new %s 0\nhs open 1 801 fresh\nhs pingclose 1 %s stall %d\n", kind, p2, k)
 		}
 		for c := 0; c < nPerKind; c++ {
 			fmt.Fprintf(w.(io.Writer), "reset\nhs new %s 0\n", kind)
@@ -689,7 +897,7 @@ func c04hGen(w interface{ WriteString(string) (int, error) }, r *rng, nPerKind i
 					fmt.Fprintf(w.(io.Writer), "hs open %d %d fresh\nhs ping %d %s\n", sid, req, sid, pl())
 					req++
 					live = append(live, sid)
-				case kind == "shell" || kind == "file": // a shell / file stream runs one command / one transfer: only fresh streams (old sessions tear down asynchronously)
+				case kind == "shell" || kind == "file" || kind == "fileup": // one command / one transfer per stream: only fresh streams (old sessions tear down asynchronously)
 					sid := next
 					next += 2
 					rq := req
